@@ -1702,3 +1702,96 @@ pub fn gen_real(rng: &mut Rng, miri: bool, tag: u64, big: bool) -> RealScenario 
     }
     .with_stall(rng, miri || big, n)
 }
+
+// ---------------------------------------------------------------------------
+// `parallel_records` over a user-defined reader whose data sets iterate with a legal but
+// inexact `size_hint` (the crate's own record sets are only one implementation of the trait)
+
+#[derive(Default)]
+pub struct ItemSet {
+    items: Vec<u64>,
+    hint_mode: u8,
+}
+
+pub struct ItemIter<'a> {
+    it: std::slice::Iter<'a, u64>,
+    mode: u8,
+}
+
+impl<'a> Iterator for ItemIter<'a> {
+    type Item = &'a u64;
+    fn next(&mut self) -> Option<&'a u64> {
+        self.it.next()
+    }
+    fn size_hint(&self) -> (usize, Option<usize>) {
+        let rem = self.it.len();
+        match self.mode % 4 {
+            0 => (0, None),
+            1 => (rem.min(1), None),
+            2 => (rem / 2, Some(rem + 3)),
+            _ => (rem, Some(rem)),
+        }
+    }
+}
+
+impl<'a> IntoIterator for &'a ItemSet {
+    type Item = &'a u64;
+    type IntoIter = ItemIter<'a>;
+    fn into_iter(self) -> ItemIter<'a> {
+        ItemIter {
+            it: self.items.iter(),
+            mode: self.hint_mode,
+        }
+    }
+}
+
+pub struct ItemReader {
+    sizes: Vec<usize>,
+    next_batch: usize,
+    counter: u64,
+    hint_mode: u8,
+}
+
+impl parallel::Reader for ItemReader {
+    type DataSet = ItemSet;
+    type Err = String;
+    fn fill_data(&mut self, d: &mut ItemSet) -> Option<Result<(), String>> {
+        if self.next_batch == self.sizes.len() {
+            return None;
+        }
+        d.items.clear();
+        for _ in 0..self.sizes[self.next_batch] {
+            d.items.push(self.counter);
+            self.counter += 1;
+        }
+        d.hint_mode = self.hint_mode;
+        self.next_batch += 1;
+        Some(Ok(()))
+    }
+}
+
+/// runs `parallel_records` over an `ItemReader`; returns (items in arrival order with their outputs, total)
+pub fn run_item_records(threads: u32, queue: usize, sizes: Vec<usize>, hint_mode: u8) -> Result<(Vec<(u64, u64)>, u64), String> {
+    let total: u64 = sizes.iter().map(|s| *s as u64).sum();
+    let rdr = ItemReader {
+        sizes,
+        next_batch: 0,
+        counter: 0,
+        hint_mode,
+    };
+    let mut got: Vec<(u64, u64)> = vec![];
+    let r: Result<Option<()>, String> = parallel::parallel_records(
+        rdr,
+        threads,
+        queue,
+        |item: &u64, out: &mut u64| {
+            *out = item.wrapping_mul(3).wrapping_add(1);
+        },
+        |item: &u64, out: &u64| {
+            got.push((*item, *out));
+            None
+        },
+    );
+    r?;
+    Ok((got, total))
+}
